@@ -313,7 +313,7 @@ def wrap_facts(facts, nat, boolean, strlist):
         nat(lean, int(f.group(1).replace("_", "")), f"mdk-core lib.rs MdkConfig::default().{field}")
     val = strip_comments(non_test(read("crates/mdk-core/src/messages/validation.rs")))
     ve = fn_body(val, "validate_event", "fn:validate_event")
-    if not re.search(r"event\.kind\s*!=\s*Kind::MlsGroupMessage", ve):
+    if not re.search(r"\w+\.kind\s*!=\s*Kind::MlsGroupMessage", ve):
         raise Missing("wrap:kind-check")
     km = re.search(r"\bMlsGroupMessage\s*=>\s*(\d+)\s*,", nostr_src("event/kind.rs"))
     if not km:
@@ -399,7 +399,11 @@ def wrap_facts(facts, nat, boolean, strlist):
                      or (reason and re.search(r"Some\(" + reason.group(1) + r"\.to_string\(\)\)", rfl))),
             "error_handling.rs record_failure: state Failed, sanitised reason; message id kept, epoch / group fall back to the existing record")
     fu = fn_body(eh, "fail_unprocessable", "fn:fail_unprocessable")
-    boolean("failUnprocessableAsModelled", "Some(&group.mls_group_id)" in fu and "Some(group.epoch)" in fu and "MessageProcessingResult::Unprocessable" in fu,
+    grp = re.escape(param_of_type(eh, "fail_unprocessable", r"&\s*(?:\w+::)*Group", "fn:fail_unprocessable"))
+    fu_call = calls(fu, r"(?:self\s*\.\s*)?record_failure")
+    boolean("failUnprocessableAsModelled", len(fu_call) == 1 and len(fu_call[0][1]) == 4
+            and bool(re.fullmatch(r"Some\(\s*&\s*" + grp + r"\.mls_group_id\s*\)", fu_call[0][1][2])) and bool(re.fullmatch(r"Some\(\s*" + grp + r"\.epoch\s*\)", fu_call[0][1][3]))
+            and "MessageProcessingResult::Unprocessable" in fu,
             "error_handling.rs fail_unprocessable: record_failure with the group and the stored record's epoch, result Unprocessable")
     sz = arms_of(fn_body(eh, "sanitize_error_reason", "fn:sanitize_error_reason"))
     arms = re.findall(r"Error::(\w+)\s*(?:\{[^}]*\}|\([^)]*\))?\s*=>\s*\"([^\"]+)\"", sz)
@@ -1033,8 +1037,8 @@ def main():
     def state_tables(lean, rel, enum):
         src = strip_comments(non_test(read(rel)))
         vs = enum_variants(src, enum)
-        a_body = impl_fn_body(src, r"\bimpl\s+" + enum + r"\s*\{", "as_str", f"ffi:{enum}:as_str")
-        f_body = impl_fn_body(src, r"\bimpl\s+(?:std::str::)?FromStr\s+for\s+" + enum + r"\b", "from_str", f"ffi:{enum}:from_str")
+        a_body = arms_of(impl_fn_body(src, r"\bimpl\s+" + enum + r"\s*\{", "as_str", f"ffi:{enum}:as_str"))
+        f_body = arms_of(impl_fn_body(src, r"\bimpl\s+(?:std::str::)?FromStr\s+for\s+" + enum + r"\b", "from_str", f"ffi:{enum}:from_str"))
         a = re.findall(r"Self\s*::\s*(\w+)\s*=>\s*\"((?:[^\"\\]|\\.)*)\"", a_body)
         f = re.findall(r"\"((?:[^\"\\]|\\.)*)\"\s*=>\s*Ok\s*\(\s*Self\s*::\s*(\w+)\s*\)", f_body)
         if len(a) != len(vs) or not f or any(v not in vs for v, _ in a) or any(v not in vs for _, v in f):
@@ -1066,7 +1070,7 @@ def main():
         raise Missing("ffi:welcome_from_uniffi=from_str")
     so_src = strip_comments(non_test(read("crates/mdk-storage-traits/src/groups/mod.rs")))
     so_vs = enum_variants(so_src, "MessageSortOrder")
-    so_body = fn_body(ffi_rs, "parse_message_sort_order", "ffi:parse_message_sort_order")
+    so_body = arms_of(fn_body(ffi_rs, "parse_message_sort_order", "ffi:parse_message_sort_order"))
     so = re.findall(r"Some\s*\(\s*\"((?:[^\"\\]|\\.)*)\"\s*\)\s*=>\s*Ok\s*\(\s*Some\s*\(\s*MessageSortOrder\s*::\s*(\w+)\s*\)\s*\)", so_body)
     if not so or any(v not in so_vs for _, v in so) or not re.search(r"None\s*=>\s*Ok\s*\(\s*None\s*\)", so_body) \
        or not re.search(r"Some\s*\(\s*\w+\s*\)\s*=>\s*Err", so_body):
